@@ -12,7 +12,7 @@ structure Site where
   func : String          -- enclosing function, qualified by its classes
   recv : String          -- receiver expression (without the written attribute)
   attr : String
-  kind : String          -- assign | assign-item | del-item | setattr | rename | …-global | mutate-global
+  kind : String          -- assign | assign-item | del-item | setattr | rename | …-global | mutate-global | mutate-attr
   ctor : Bool            -- a write to `self` inside __init__/__post_init__/post_init/pre_init
   fin : Bool             -- inside a `finally:` clause
   tryf : Bool            -- inside the body of a `try … finally`
@@ -31,6 +31,7 @@ inductive Why
   | setter             -- `Var._rename` itself (its call sites are listed separately as kind `rename`)
   | setting            -- the three scoped settings (C16)
   | freshProto         -- field of a protobuf message created/copied by the same call
+  | notContainer       -- a method that merely shares its name with a container mutator (`Var.__add__` dispatching to `.add`)
 deriving DecidableEq, Repr
 
 def startsWith (s p : String) : Bool := p.toList.isPrefixOf s.toList
@@ -73,6 +74,8 @@ def classify (s : Site) : Option Why :=
   else if s.file == "_public.py" && s.func == "build" && s.recv == "model_proto.graph" then some .freshProto
   else if s.file == "_public.py" && s.func == "inline" && startsWith s.recv "model." then some .freshProto
   else if s.file == "_value_prop.py" && s.func == "_run_onnxruntime" && s.recv == "options" then some .freshProto
+  else if s.kind == "mutate-attr" && s.file == "_var.py" && s.recv == "Var" && s.attr == "_operator_dispatcher" &&
+      (s.func == "Var.__add__" || s.func == "Var.__radd__") then some .notContainer
   else none
 
 def allowed (s : Site) : Bool := (classify s).isSome
@@ -101,5 +104,51 @@ def copyBeforeMutate : List Ev → Bool
   | .copy :: rest => !(rest.contains .rebind) && !(rest.contains .copy) && !(rest.contains .missing)
   | .read :: rest => copyBeforeMutate rest
   | _ :: _ => false
+
+/-! ## State that needs no write site: caches in module-level containers, memoising decorators,
+    and the `__dict__` back door (tables extracted by `translator/writes.py` on every run). -/
+
+def endsWith (s p : String) : Bool := p.toList.reverse.isPrefixOf s.toList.reverse
+
+/-- Decorators that keep no state between calls. Anything else (`functools.lru_cache`, `cache`,
+    `cached_property`, `singledispatch`, a home-made `memoize` …) is not accepted. -/
+def pureDecorators : List String :=
+  ["property", "classmethod", "staticmethod", "abc.abstractmethod", "abstractmethod", "overload",
+   "typing.overload", "contextmanager", "contextlib.contextmanager", "dataclass", "dataclasses.dataclass",
+   "functools.wraps", "wraps", "functools.total_ordering", "total_ordering", "typing.final", "final"]
+
+def decoratorOk (d : String) : Bool :=
+  pureDecorators.contains d || endsWith d ".setter" || endsWith d ".getter" || endsWith d ".deleter"
+
+def decoratorsOk (l : List (String × String × String)) : Bool := l.all (fun x => decoratorOk x.2.2)
+
+/-- Tables computed once at import time from the installed `onnx` (never written afterwards: a write
+    would be a `<global>` site, and `classify` allows none outside `_future.py`). -/
+def importTimeTables : List (String × String) :=
+  [("_schemas.py", "ALL_SCHEMAS"), ("_schemas.py", "DOMAINS"), ("_schemas.py", "DOMAIN_VERSIONS"),
+   ("_schemas.py", "SCHEMAS_VER_LISTS"), ("_schemas.py", "SCHEMAS")]
+
+/-- Calls at module level whose result is not a container. -/
+def pureCtors : List String :=
+  ["TypeVar", "typing.TypeVar", "NewType", "typing.NewType", "logging.getLogger", "re.compile",
+   "frozenset", "tuple", "namedtuple", "collections.namedtuple", "object"]
+
+/-- (file, name, constructor) of a module-level assignment of a container literal or call result. -/
+def moduleMutableOk (x : String × String × String) : Bool :=
+  x.2.1 == "__all__" || pureCtors.contains x.2.2 || importTimeTables.contains (x.1, x.2.1)
+
+def moduleMutablesOk (l : List (String × String × String)) : Bool := l.all moduleMutableOk
+
+/-- No statement writes into an import-time table. -/
+def importTablesReadOnly (sites : List Site) : Bool :=
+  sites.all (fun s => s.recv != "<global>" || !(importTimeTables.any (fun t => t.2 == s.attr)))
+
+/-- The only uses of `x.__dict__` / `vars(x)`: the field enumeration of the dataclass-like
+    containers in `_fields.py` (reads). -/
+def dictAccessAllowed : List (String × String) :=
+  [("_fields.py", "BaseAttributes.get_fields"), ("_fields.py", "BaseVars._flatten"),
+   ("_fields.py", "BaseVars.get_fields"), ("_fields.py", "BaseVars._unpack_to_any")]
+
+def dictAccessOk (l : List (String × String)) : Bool := l.all dictAccessAllowed.contains
 
 end Purity
